@@ -3,59 +3,59 @@
 import json, subprocess
 CLAIMED = {
  "C16": dict(technique="path-condition dominance (DNF over SSA branch conditions) + field-use census + call-graph reachability + value derivation",
-             text="Decides five structural necessary conditions of the --listen access rules on every path of handleHttpRequest/startHttpServer and on the wiring in terminal.go (auth before both request effects; remote bind needs key; GET handler writes no Terminal state; key only via len/ConstantTimeCompare; POST body shares parser and interpreter with --bind). It does not decide the totality of the hand-written HTTP scanner.",
+             text="Decides structural necessary conditions of the --listen access rules: auth before both request effects; remote bind needs a key; the GET handler writes no Terminal state and reads it under the lock; key used only via len/ConstantTimeCompare; POST body shares parser and interpreter with --bind; GET parameters cannot be negative; Options.Unsafe follows the option spelling. Does not decide the totality of the hand-written HTTP scanner.",
              note="Trusts go/types + go/ssa (x/tools v0.29.0) and the VTA call graph; intraprocedural path conditions; memory facts (field loads) are matched structurally."),
 }
 CLAIMED["C08"] = dict(technique="alias-snapshot analysis + mailbox-drain census with path conditions + flag-aware must-pass-through + read-only use census of cached slices",
-  text="Decides seven structural necessary conditions of convergence: change detection never compares the query buffer with an alias of itself across the action-list interpreter; mailbox drains select messages independently of map iteration order; nth/denylist changes invalidate both caches and bump the revision before the next search; cancelled scans are never published; token cache reads are revision-checked; cached result lists are never written in place; cached mergers are reused only with the same final flag. Does not decide convergence itself.",
+  text="Decides structural necessary conditions of convergence: change detection never compares the query buffer with an alias of itself across the action interpreter; mailbox drains independent of map iteration order; nth/denylist changes invalidate caches and bump the revision before the next search (thorough); cancelled scans never published; token cache reads revision-checked; cached result lists never written in place; cached mergers reused only with the same final flag and dropped when the item count changes; denylist and pattern cache replaced together; snapshot and revision assigned together. Does not decide convergence itself.",
   note="Trusts go/ssa; closure variables resolved through MakeClosure bindings; in-place writers of the query buffer are enumerated from the code on every run.")
 CLAIMED["C07"] = dict(technique="backward slicing with sanitisers (inter-procedural through closures) + CFG reachability between classified sinks + constant tables + path conditions",
   text="Decides five structural necessary conditions of the output contract: items reach a printer only via Item.AsString/acceptNth; framing order query→expect→queue→items per printing function; exit-code constants and per-request exit codes, filter-mode 0-iff-found, main→os.Exit pass-through; terminal restored before printing; the --with-nth builder always keeps the original bytes. Does not decide byte-for-byte equality of stdout.",
   note="Trusts go/ssa; sinks are the three printer objects resolved by field identity; closures resolved through bindings.")
 CLAIMED["C14"] = dict(technique="constant-table pairing of DEC private modes with must-call sets and guard subsets + dominance + must-pass-through on CFG (flag-aware) + provenance slicing",
-  text="Decides four structural necessary conditions of clean exit: every terminal mode switched on is switched off on every path of Close and Pause (incl. raw mode, cursor, auto-wrap); the render loop stops only through exit() after quitting the previewer, closing the listener and the terminal, with EvtQuit/killPreview/cancel afterwards; temp-file lists of placeholder expansion are removed on every path; every started child is waited for and only group leaders are group-killed. Does not decide absence of panics/hangs.",
-  note="Light (ANSI) renderer on linux/amd64 only; tcell/windows renderers are not compiled in this configuration; decoder index guards (P2) not built.")
+  text="Decides structural necessary conditions of clean exit: every terminal mode switched on is switched off on every path of Close and Pause (incl. raw mode, cursor, auto-wrap) and Close flushes after queueing; the render loop stops only through exit() after quitting the previewer, closing the listener and the terminal, with the preview killed (delivered and awaited) before EvtQuit; temp-file lists of placeholder expansion removed on every path; every started child waited for, only group leaders group-killed, SIGKILL to the group and a kill wait no shorter than the grace period; constant indexes of the key decoder proven in range by interval analysis. Does not decide absence of panics/hangs.",
+  note="Light (ANSI) renderer on linux/amd64 only; tcell/windows renderers are not compiled in this configuration; non-constant indexes of the key decoder are not judged.")
 CLAIMED["C13"] = dict(technique="must-hold lockset dataflow with caller-holds-lock summaries + belief rule (Engler) + dominance + writer census",
-  text="Decides structural necessary conditions of non-interference: lock discipline inferred per run for every lock-owning struct except Terminal (7 fields / 40 accesses today), boundary-chunk copies made under the lock, every post-spawn return of scan joins the workers, one slab per worker, closed writer sets for Item fields and atomic-only access to Reader.event. Does not decide equality with a sequential filter nor races on Terminal.",
+  text="Decides structural necessary conditions of non-interference: lock discipline inferred per run for every lock-owning struct except Terminal, boundary-chunk copies made under the lock and written only on private copies, every post-spawn return of scan joins the workers, one slab per worker, hand-off buffers, (thorough) closed writer sets for Item fields and atomic-only access to Reader.event. Does not decide equality with a sequential filter nor races on Terminal.",
   note="Instance-insensitive lock identity (type.field path); Terminal excluded by stated limit; go/ssa trusted.")
 CLAIMED["C04"] = dict(technique="constant inequalities from types/consts + cross-configuration sibling agreement (amd64 vs arm64 load, build-constraint evaluation over all GOARCH) + path-condition comparison of sort/merge guards + value provenance",
-  text="Decides structural necessary conditions of rank order: key capacity vs. accepted criteria and slot layout, agreement of the two build-tagged comparators (incl. endianness and polarity), per-partition sort and k-way merge sharing comparator/tac/sorted condition, score first, partial results placed by partition index. Does not decide rank key values nor pass-through index arithmetic.",
+  text="Decides structural necessary conditions of rank order: key capacity vs. accepted criteria and slot layout; agreement of the two build-tagged comparators (incl. endianness and polarity) over every GOARCH; per-partition sort and k-way merge sharing comparator/tac/sorted condition; score first; partial results placed by partition index; scheme default criteria only when none were given; cached result lists never sorted or written in place. Does not decide rank key values nor pass-through index arithmetic.",
   note="Loads /repo twice (linux/amd64 and linux/arm64); byte order per GOARCH is a fixed table; `go tool dist list` supplies the GOARCH universe.")
 CLAIMED["C01"] = dict(technique="table agreement (const set vs map stores vs lookup key) + value provenance + path conditions on cache scope",
-  text="Decides three structural necessary conditions of exact filtering: complete and injective term-kind registry selected by term.typ; per-term (not per-query) case/normalisation/text handed to the matcher and derived per token; cache scope guards (cache hit returned / result added only when cacheable, BuildPattern clears cacheable for OR/negated/non-base terms, cache key only from single non-negated base terms). Does not decide the grammar's semantics.",
+  text="Decides structural necessary conditions of exact filtering: complete and injective term-kind registry selected by term.typ; per-term (not per-query) case/normalisation/text handed to the matcher; cache-scope guards (hit returned / result added only when cacheable, cacheable cleared for OR/negated/non-base terms, cache key only from single non-negated base terms); the escaped-space placeholder is outside the splitter's separator language; the boundary bonus of exact-boundary terms is computed only at the first pattern character; the merger cache is reset when the item count changes. Does not decide the grammar's semantics.",
   note="go/ssa trusted; short-circuit conditions recognised in their branch-threaded shape (x/tools v0.29.0 emits that shape for if-conditions).")
 CLAIMED["C18"] = dict(technique="writer/reader census + path conditions + provenance",
-  text="Decides five structural necessary conditions of the history contract: closed set of writers of the history file and of readers/writers of in-memory edits; append only on exit code<=1 or become; guarded cursor moves; truncation computed from maxSize; override records edits unconditionally. Does not decide file contents.",
+  text="Decides structural necessary conditions of the history contract: closed set of writers of the history file and of readers/writers of in-memory edits; append only on exit code<=1 or become; guarded cursor moves; truncation computed from maxSize; override records edits unconditionally; --history-size updates an already created history. Does not decide file contents.",
   note="History file identified by History.path / NewHistory's path parameter; go/ssa trusted.")
 CLAIMED["C19"] = dict(technique="role agreement between option parser and walker callback (path conditions) + guarded returns + provenance of skip-list entries",
-  text="Decides three structural necessary conditions of the walker contract: each documented flag word sets the field that plays that role in readFiles and every parsed flag is consumed; SkipDir only for directories; suffix-matched skip entries start with the separator. Does not decide which paths are listed.",
+  text="Decides structural necessary conditions of the walker contract: each documented flag word sets the field that plays that role in readFiles and every parsed flag is consumed and never silently skipped; SkipDir only for directories; suffix-matched skip entries start with the separator; the streaming filter the callbacks feed uses its slab under its mutex. Does not decide which paths are listed.",
   note="Roles are recognised from readFiles' own use of the fields (fastwalk Follow, dot-name test, emit test).")
 CLAIMED["C20"] = dict(technique="dominance + must-pass-through with success-edge filtering + goroutine/channel counting + creation census + sibling agreement",
-  text="Decides six structural necessary conditions of the preview contract: cancel before every enqueue; Start→Wait and one join per helper goroutine inside one previewer iteration, single previewer; quit+kill at session end; group-leader children; unbuffered kill channel; version bump inspects the template that is run. Does not decide that the last run is for the focused line.",
+  text="Decides structural necessary conditions of the preview contract: cancel before every enqueue; Start→Wait and one join per helper goroutine inside one previewer iteration, single previewer; quit+kill at session end (shared with C14); group-leader children; unbuffered kill channel; no plain send to select-only receivers; UpdateList bumps the version on a revision change; version bump inspects the template that is run. Does not decide that the last run is for the focused line.",
   note="Shares obligations with C14-R2/R4; go/ssa trusted.")
 CLAIMED["C09"] = dict(technique="writer census with path conditions + exhaustiveness of the action switch over the constant set + dominance + alias analysis of the kill buffer",
-  text="Decides four structural necessary conditions of query/cursor/selection evolution: selection insertions only through the limit- and duplicate-checked selectItem, deletions only through deselectItem, wholesale replacements empty or filtered copies; every actionType constant has a case; printList clamps before reading results; the kill buffer never keeps sharing the query buffer's array. Does not decide the readline semantics of each action.",
+  text="Decides structural necessary conditions of query/cursor/selection evolution: selection insertions only through the limit- and duplicate-checked selectItem, deletions only through deselectItem, wholesale replacements empty or filtered copies; every actionType constant has a case; printList clamps before reading results; the kill buffer never keeps sharing the query buffer's array; word-motion helpers return rune counts; pass-through FindIndex uses minIndex. Does not decide the readline semantics of each action.",
   note="go/ssa trusted; 138 action types floored.")
 CLAIMED["C12"] = dict(technique="constant replacer tables evaluated in a model of POSIX/fish single-quote lexing (exhaustive short strings) + taint analysis with sanitisers and flag-guarded phi edges + provenance of re-launch arguments/environment",
-  text="Decides three structural necessary conditions of shell-safe expansion: the quoting lemma for QuoteEntry/escapeSingleQuote from the tables in the code and table selection by the executing shell; item/query/prompt text reaches the expanded template only via QuoteEntry (or ordinal/temp path) except under the r/f flags; tmux/proxy re-launch quotes every argument and environment value. Does not decide the placeholder grammar.",
+  text="Decides structural necessary conditions of shell-safe expansion: the quoting lemma for QuoteEntry/escapeSingleQuote from the tables in the code and table selection by the executing shell; item/query/prompt text reaches the expanded template only via QuoteEntry (or ordinal/temp path) except under the r/f flags; tmux/proxy re-launch quotes every argument and environment value and admits only identifier-shaped variable names; expansion writes no package-level state. Does not decide the placeholder grammar.",
   note="The shell model (POSIX: literal until next quote, backslash-quote outside; fish: two escapes inside quotes) is the trusted base of R1.")
 CLAIMED["C17"] = dict(technique="error-discipline analysis over SSA use-def + typed AST, CFG ordering, regexp/syntax language vs switch cases, provenance of recorded indices, shape census of mask pieces",
-  text="Decides structural necessary conditions of command-line handling: no dropped/unused error among ~240 error-returning calls reachable from ParseOptions; file→env→argv layering with one shared occurrence counter; action-name tables agree (41 names within the masking regexp's language); main maps a parse error to exit 2; global occurrence indices for --tmux/--height; offset-preserving mask pieces; (thorough) MustCompile only on constants/QuoteMeta text. Does not decide totality of the splitter nor the bind round-trip.",
+  text="Decides structural necessary conditions of command-line handling: no dropped/unused error among the error-returning calls reachable from ParseOptions; file→env→argv layering with one shared occurrence counter; action-name tables agree with the masking regexp's language; main maps a parse error to exit 2; global occurrence indices for --tmux/--height; offset-preserving mask pieces; option state shared between handlers is persisted in Options; package-level variables assigned on every successful path; parsed values are never silently skipped; (thorough) MustCompile only on constants/QuoteMeta text. Does not decide totality of the splitter nor the bind round-trip.",
   note="Scope = functions of package fzf reachable from ParseOptions by static calls/closures; writes that cannot fail are exempt by name prefix.")
 CLAIMED["C02"] = dict(technique="path conditions on the slab-carving helpers + constant table within guard interval",
-  text="Decides two structural necessary conditions of 'never a crash / table consistent': slab reslices are bounded by a capacity test on the very expression used as the slice bound with a heap fallback; all keys of the accent table lie inside normalizeRune's guard. Does not decide witness soundness/completeness of the matchers.",
+  text="Decides structural necessary conditions of 'genuine witness, never a crash': slab reslices bounded by a capacity test on the very expression used as the slice bound, with a heap fallback; accent-table keys inside normalizeRune's guard; boundary bonus only under pidx==0 in exactMatchNaive; a slab-independent pattern-length guard before the int16 matrices; scan joins its workers before returning (slabs are reused). Does not decide witness soundness/completeness of the matchers.",
   note="The matchers' index arithmetic is value-level and not decided; mutants of the matching algorithms themselves are outside this check's reach.")
 CLAIMED["C03"] = dict(technique="constant relations and inequality over go/constant values read from the code + dominator-based path conditions",
-  text="Decides two structural necessary conditions of the scoring model: the documented constants and their documented relations; int16 headroom for the longest pattern the O(nm) algorithm accepts with the code's own slab size, the V1 fallback guarding the matrices, and slab sizes at creation. Does not decide agreement of the optimised DP with the recurrence.",
-  note="The headroom bound uses M <= floor(sqrt(slab16Size)) (from N*M <= slab and M <= N).")
+  text="Decides structural necessary conditions of the scoring model: the documented constants and their documented relations; int16 headroom for the longest pattern FuzzyMatchV2 admits, from the code's own constants, with the V1 fallback dominating the matrices and slab sizes at creation; algo.Init assigns every scoring input before deriving values from it. Does not decide agreement of the optimised DP with the recurrence.",
+  note="The headroom bound is evaluated with the constant the pattern-length guard compares M with (maxPatternLengthV2 since fix 7e8ad36); the slab-derived bound M <= floor(sqrt(slab16Size)) is only a fallback when no such guard exists.")
 CLAIMED["C05"] = dict(technique="goroutine argument census + offset chaining of scratch carving + cross-site agreement (begin-derived rank keys vs position request)",
-  text="Decides three structural necessary conditions of purity: one slab per worker (and mutex for the streaming slab); pairwise disjoint scratch arrays by offset chaining; every criterion whose key is computed from the begin offset gets exact positions. Does not decide absence of stale scratch reads.",
+  text="Decides structural necessary conditions of purity: one slab per worker (mutex for the streaming slab); pairwise disjoint scratch arrays by offset chaining; every criterion whose key is computed from the begin offset gets exact positions; workers joined before scan returns; shared sort/merge and token-cache revision rules; (thorough) invalidation before the next search. Does not decide absence of stale scratch reads.",
   note="Stale-read freedom of the carved arrays needs value reasoning and is explicitly not claimed.")
 CLAIMED["C06"] = dict(technique="alias families over SSA phi webs (slab / carry-over buffer) + lockset + must-pass-through in item builders",
-  text="Decides three structural necessary conditions of record→item fidelity: buffer hand-off safety in Reader.feed (advancing/reallocated slab, carry-over never resliced or reused after hand-off); boundary-chunk copies under the lock and a closed writer set for the chunk list; ordinal/header discipline of the item builders. Does not decide framing for every chunking.",
+  text="Decides structural necessary conditions of record→item fidelity: buffer hand-off safety in Reader.feed (advancing/reallocated slab, carry-over never resliced or reused after hand-off); boundary-chunk copies under the lock and a closed writer set for the chunk list; ordinal/header discipline of the item builders; restart resets ordinal, header and list together and only after the previous reader finished. Does not decide framing for every chunking.",
   note="go/ssa phi webs identify the loop-carried buffers; no names are used.")
 CLAIMED["C10"] = dict(technique="reader/constructor census of Range + call-graph reachability of the single interpreter + provenance of offsets + unit agreement",
-  text="Decides three structural necessary conditions of field expressions: one interpreter/parser of Range reached by all four consumers; match offsets and positions shifted by the token's prefix length; prefix lengths accumulated in characters. Does not decide tokenizer partition or range arithmetic.",
+  text="Decides structural necessary conditions of field expressions: one interpreter/parser of Range reached by all four consumers; match offsets and positions shifted by the token's prefix length; prefix lengths accumulated in characters; accept-nth and {N} expansion tokenize the original record. Does not decide tokenizer partition or range arithmetic.",
   note="VTA call graph for reachability through the transformer closures.")
 CLAIMED["C11"] = dict(technique="index chaining over SSA phis (tiling of the input) + provenance of span offsets + SGR tables and extended-colour automaton extracted from the SSA + byte-class partitions of the scanner by constant folding compared with the documented regular expression + result-use/state-carry census",
   text="Decides seven structural necessary conditions of --ansi stripping/colouring: extractColor tiles its input around the ranges the scanner reports (nothing between sequences dropped, duplicated or re-read; plain input returned as is); span offsets count characters of exactly the written pieces; SGR set/reset attribute table and basic colour ranges are consistent; the 38/48;5 and 38/48;2 automaton combines its parameters in order; every byte class the scanner branches on equals the class of the documented regular expression; line processors use the stripped text/spans and carry the returned state. Does not decide equivalence of the scanner with the regular expression on all strings (length guards, UTF-8 widths, backtracking) nor span well-formedness.",
